@@ -440,6 +440,10 @@ func (w *binaryWriter) Finish() error {
 		if w.err = w.emit(seq); w.err != nil {
 			return w.err
 		}
+
+		// Start buffering the next datagram, so that values written after this
+		// Finish are again preceded by the symbol table that defines their symbols.
+		w.bufs.push(&datagram{})
 	}
 
 	return nil
